@@ -200,9 +200,14 @@ def gen(seed: int, tier: str):
             # CG arguments and data facts (flag independent)
             if vname == "orig":
                 cgn, cgimpl = [], []
+                eta_by_decay = {}
                 for t in ts:
                     for i in t.topology.nodes:
                         ip = t.interactions[i]
+                        (pin_,) = list(t.topology.get_edge_ids_ingoing_to_node(i))
+                        kids_ = sorted(t.states[j].particle.name for j in t.topology.get_edge_ids_outgoing_from_node(i))
+                        dk = (t.states[pin_].particle.name, *kids_, str(ip.l_magnitude), str(ip.s_magnitude))
+                        eta_by_decay.setdefault(dk, set()).add(ip.parity_prefactor)
                         ef = eta_formula(t, i)
                         if ip.parity_prefactor is not None and ef is not None:
                             facts["eta_checked"] += 1
@@ -225,6 +230,9 @@ def gen(seed: int, tier: str):
                                   and int(P) == int(P1) * int(P2) * (-1) ** ((L // 2) % 2))
                             if not ok:
                                 facts["ls_bad"].append([rname, naming.generate_amplitude_name(t, i), L, S])
+                facts["decays"] = facts.get("decays", 0) + len(eta_by_decay)
+                facts.setdefault("eta_not_function_of_decay", []).extend(
+                    [rname, *k] for k, v in eta_by_decay.items() if len(v) > 1)
                 if cgn:
                     evals.append(("map (fun x => match x with (n, l, s) => cg_args n l s end) [" + "; ".join(cgn) + "]",
                                   {"reaction": rname, "variant": "cg", "cg": cgimpl}))
@@ -392,7 +400,8 @@ def cmp_():
             disagreements.append({"signature": f"corr:{k}", "what": f"data fact violated ({k}): {facts[k][0]}", "case": {"fact": k, "first": facts[k][:3]}})
     samples = [{"reaction": r["reaction"], "variant": r["variant"], "flags": r.get("flags"), "transitions": len(r.get("seq", r.get("cg", [])))} for r in recs[:: max(1, len(recs) // 6)]][:6]
     print(json.dumps({"cases": len(recs), "agree": n_ok, "with_coupling": n_coupled, "seq_not_exact": n_inexact, "missing": missing,
-                      "eta_checked": facts["eta_checked"], "ls_checked": facts["ls_checked"], "disagreements": disagreements, "samples": samples}))
+                      "eta_checked": facts["eta_checked"], "ls_checked": facts["ls_checked"],
+                      "decays": facts.get("decays", 0), "eta_not_function_of_decay": facts.get("eta_not_function_of_decay", [])[:5], "disagreements": disagreements, "samples": samples}))
 
 
 if __name__ == "__main__":
